@@ -7,6 +7,7 @@ import PoetryVerif.Proofs.PyConvNorm
 import PoetryVerif.Proofs.MarkerAlgSoundOps
 import PoetryVerif.Proofs.MarkerShape
 import PoetryVerif.Proofs.MarkerLeafVersionText
+import PoetryVerif.Proofs.MarkerProjVars
 
 set_option linter.unusedSimpArgs false
 set_option linter.unusedVariables false
@@ -174,10 +175,24 @@ theorem compactSub_good (syn : Syn) (subs : List M) (h : compactSubMarkers syn =
     exact groupMarker_good g (compactGroups_good syn gs hg hi g hg')
 
 
+theorem aliasName_idem (n : String) : aliasName (aliasName n) = aliasName n := by
+  have hall : ∀ p ∈ Gen.markerAliases, aliasName p.2 = p.2 := by decide
+  unfold aliasName
+  cases hf : Gen.markerAliases.find? (fun p => p.1 == n) with
+  | none => simp [hf]
+  | some p =>
+    obtain ⟨k, v⟩ := p
+    simp only
+    have hm := List.mem_of_find?_eq_some hf
+    have := hall (k, v) hm
+    unfold aliasName at this
+    exact this
+
 /-- the invariant of the leaves `_compact_markers` builds from items that have a value on `E`: a coherent
-`SingleMarker` (rebuilding it from its own fields gives its constraint back) that evaluates on `E` -/
+`SingleMarker` (rebuilding it from its own fields gives its constraint back) that evaluates on `E`, its variable
+spelt canonically -/
 def CompLeaf (E : Env) (l : Leaf) : Prop :=
-  ∃ s, l = .single s ∧ s.coherent = true ∧ ∃ b, l.validate E = .ok b
+  ∃ s, l = .single s ∧ s.coherent = true ∧ (∃ b, l.validate E = .ok b) ∧ Canon l
 
 mutual
 theorem atomItems_of_agree (E : Env) : ∀ a : Atom, a.agree E → a.coh = true → AtomItems (CompLeaf E) a
@@ -188,7 +203,9 @@ theorem atomItems_of_agree (E : Env) : ∀ a : Atom, a.agree E → a.coh = true 
     intro s hs
     simp only [itemV, hs] at hb
     rw [hs] at hc
-    exact ⟨s, rfl, hc, b, by simpa [Leaf.validate] using hb⟩
+    exact ⟨s, rfl, hc, ⟨b, by simpa [Leaf.validate] using hb⟩, by
+      show aliasName s.name = s.name
+      rw [mkSingle_name' _ _ _ _ hs, aliasName_idem]⟩
   | .paren m, ha, hc => by
     simp only [AtomItems]
     exact synItems_of_agree E m (by simpa [Atom.agree] using ha) (by simpa [Atom.coh] using hc)
@@ -223,7 +240,7 @@ theorem compactSub_agree (E : Env) (S : LeafSpec (leafEval E) (CompLeaf E)) (syn
     rw [he] at this; injection this with this; exact this.symm
   subst hb
   have hev : M.Evaluable E (mkUnion subs) :=
-    M.good_mono (fun l hl => by obtain ⟨s, _, _, hb⟩ := hl; exact hb) _ (mkUnion_good subs hgl)
+    M.good_mono (fun l hl => by obtain ⟨s, _, _, hb, _⟩ := hl; exact hb) _ (mkUnion_good subs hgl)
   rw [M.validate_eq_sem E _ hev] at hval
   injection hval with hval
   rw [(mkUnion_spec S subs hgl).2, ← M.semAny_eq] at hval
@@ -283,6 +300,63 @@ def PyDomVC : VC → Bool
 
 theorem parseText_empty : parseText "" = .error .syntax := rfl
 
+/-- reference value of a marker text (the empty text is the absent marker) -/
+def refEval (E : Env) (txt : String) : Option Bool :=
+  if txt.isEmpty then some true
+  else match parseText txt with
+    | .ok syn => evalSyn E syn
+    | .error _ => none
+
+/-- C06's compaction agreement for ALL syntax trees, as a hypothesis (used by C02 for declared marker texts and the
+`sys_platform` clause, which are arbitrary texts; for the trees `create_nested_marker` prints it is proved:
+`compactSub_agree` with `pySyn_agree`): the sub-markers `parse_marker` builds from a syntax tree satisfy the leaf
+invariant, and their disjunction has the reference value of the tree -/
+def CompactAgree (E : Env) (ev : Leaf → Bool) (G : Leaf → Prop) : Prop :=
+  ∀ syn subs b, compactSubMarkers syn = .ok subs → evalSyn E syn = some b →
+    M.GoodAll G subs ∧ M.semAny ev subs = b
+
+/-- a text with a reference value is read by `parse_marker` as a marker with that truth (C07's `union`
+soundness, proved; compaction agreement as hypothesis) -/
+theorem parseMarker_sem {E : Env} {ev : Leaf → Bool} {G : Leaf → Prop} (S : LeafSpec ev G)
+    (hC : CompactAgree E ev G) (txt : String) (b : Bool) (m : M)
+    (hr : refEval E txt = some b) (hm : parseMarker txt = .ok m) : M.Good G m ∧ M.sem ev m = b := by
+  unfold refEval at hr
+  by_cases he : txt.isEmpty = true
+  · simp only [he, if_true, Option.some.injEq] at hr
+    have : txt = "" := by simpa [String.isEmpty_iff] using he
+    subst this
+    simp [parseMarker] at hm
+    subst hm; subst hr; simp
+  · simp only [he, if_false] at hr
+    cases hp : parseText txt with
+    | error e => simp [hp] at hr
+    | ok syn =>
+      simp only [hp] at hr
+      have h1 : (txt == "<empty>") = false := by
+        cases h : txt == "<empty>" with
+        | false => rfl
+        | true =>
+          have : txt = "<empty>" := by simpa using h
+          subst this
+          have : parseText "<empty>" = .error .syntax := rfl
+          rw [this] at hp; cases hp
+      have h2 : (txt == "*") = false := by
+        cases h : txt == "*" with
+        | false => rfl
+        | true =>
+          have : txt = "*" := by simpa using h
+          subst this
+          have : parseText "*" = .error .syntax := rfl
+          rw [this] at hp; cases hp
+      have he' : txt.isEmpty = false := by simpa using he
+      simp only [parseMarker, h1, he', h2, Bool.false_eq_true, if_false, Bool.or_false, hp, bind, Except.bind] at hm
+      split at hm
+      · cases hm
+      · rename_i subs hs
+        have hc := hC syn subs b hs hr
+        have := unionF_sound S hc.1 hm
+        exact ⟨this.1, by rw [this.2, hc.2]⟩
+
 /-- what `create_nested_marker` prints for a constraint of the domain: the empty text for the universal range,
 otherwise a text that parses to a tree of python items whose reference value is membership -/
 theorem createNested_syn (E : Env) (c : VC) (hd : PyDomVC c = true) (X Y Z : Nat) (hE : EnvPy E X Y Z) :
@@ -323,6 +397,19 @@ theorem createNested_syn (E : Env) (c : VC) (hd : PyDomVC c = true) (X Y Z : Nat
       simp [VC.allowsPlain, VC.flatten]
     exact ⟨tx, hcn, Or.inr ⟨hnonempty tx syn hp, syn, hp, by rw [hal]; exact he, hpy⟩⟩
 
+/-- `create_nested_marker` then `parse_marker`, for an arbitrary leaf truth and invariant, relative to the generic
+compaction agreement (the form C02 composes with its other marker texts) -/
+theorem createNested_poetry_of_agree {E : Env} {ev : Leaf → Bool} {G : Leaf → Prop} (S : LeafSpec ev G)
+    (hC : CompactAgree E ev G) (c : VC) (hd : PyDomVC c = true) (X Y Z : Nat) (hE : EnvPy E X Y Z)
+    (txt : String) (m : M) (ht : createNestedMarker "python_version" c = .ok txt)
+    (hm : parseMarker txt = .ok m) : M.Good G m ∧ M.sem ev m = c.allowsPlain (pyV X Y Z) := by
+  obtain ⟨txt', ht', hcase⟩ := createNested_syn E c hd X Y Z hE
+  rw [ht] at ht'; injection ht' with ht'; subst ht'
+  refine parseMarker_sem S hC txt _ m ?_ hm
+  rcases hcase with ⟨rfl, hall⟩ | ⟨hne, syn, hp, he, _⟩
+  · simp [refEval, hall]
+  · simp [refEval, hne, hp, he]
+
 /-- **`create_nested_marker` then poetry's own `parse_marker` and evaluation**: the marker object satisfies the
 leaf invariant `CompLeaf E`, its truth under `leafEval E` is membership of `X.Y.Z` in the constraint, and
 `validate` returns exactly that.  C06's compaction agreement and leaf agreement for python items and C07's
@@ -362,6 +449,6 @@ theorem createNested_poetry (E : Env) (S : LeafSpec (leafEval E) (CompLeaf E)) (
         have := unionF_sound S hca.1 hm
         exact ⟨this.1, by rw [this.2, hca.2]⟩
   refine ⟨key.1, key.2, ?_⟩
-  rw [M.validate_eq_sem E m (M.good_mono (fun l hl => by obtain ⟨s, _, _, hb⟩ := hl; exact hb) m key.1), key.2]
+  rw [M.validate_eq_sem E m (M.good_mono (fun l hl => by obtain ⟨s, _, _, hb, _⟩ := hl; exact hb) m key.1), key.2]
 
 end Poetry
